@@ -1,4 +1,4 @@
-use super::{Node, RustDocument, RustFieldType, TryFromNode, WriterError, complex::ComplexProps};
+use super::{Namespace, Node, Rc, RustDocument, RustFieldType, TryFromNode, WriterError, complex::ComplexProps};
 use crate::model::{
     field::{OtherRustType, as_rust_type},
     node::collect_namespaces_on_node,
@@ -8,6 +8,7 @@ use crate::model::{
 pub struct ElementProps {
     pub xml_name: String,
     pub element_type: ElementType,
+    pub target_namespace: Option<Rc<Namespace>>,
 }
 
 #[derive(Debug, PartialEq)]
@@ -49,6 +50,7 @@ impl<'n> TryFromNode<'n> for ElementProps {
             return Ok(ElementProps {
                 xml_name,
                 element_type: ElementType::RustType(rust_type),
+                target_namespace: doc.current_target_namespace.clone(),
             });
         }
 
@@ -59,6 +61,7 @@ impl<'n> TryFromNode<'n> for ElementProps {
                 return Ok(ElementProps {
                     xml_name,
                     element_type: ElementType::ComplexType(complex_props),
+                    target_namespace: doc.current_target_namespace.clone(),
                 });
             }
         }
@@ -66,6 +69,7 @@ impl<'n> TryFromNode<'n> for ElementProps {
         Ok(ElementProps {
             xml_name,
             element_type: ElementType::Unsupported,
+            target_namespace: doc.current_target_namespace.clone(),
         })
     }
 }
